@@ -41,6 +41,8 @@ type wuObs struct {
 	Adm     []bool   `json:"-"`
 	Stored  []int64  `json:"-"`
 	Trace   []string `json:"trace,omitempty"`
+	// NaNRejected: the case's threshold is NaN and LoadRules did not put the rule in force (nothing else is observed)
+	NaNRejected bool `json:"nan_threshold_rejected,omitempty"`
 }
 
 // ---- generator --------------------------------------------------------------------------
@@ -86,8 +88,8 @@ func witness(id int) (wuCase, bool) {
 			c.Ops = append(c.Ops, wreq{Ms: t + 10 + 602000, B: 1})
 		}
 		return c, true
-	case 6: // a NaN threshold passes flow.IsValidRule (NaN < 0 is false)
-		c := wuCase{ID: id, Name: "NaN-threshold-accepted-as-valid", T: fl(math.NaN()), Period: 10, CF: 3}
+	case 6: // a NaN threshold no longer passes flow.IsValidRule (/repo 1e1f6ae): the rule must not be in force
+		c := wuCase{ID: id, Name: "NaN-threshold-rejected", T: fl(math.NaN()), Period: 10, CF: 3}
 		for i := 0; i < 30; i++ {
 			c.Ops = append(c.Ops, wreq{Ms: t + 100, B: 1})
 		}
@@ -180,7 +182,9 @@ func runWu(c wuCase, clk *vclock.Clock) wuObs {
 	if _, err := flow.LoadRules([]*flow.Rule{rule}); err != nil {
 		panic(err)
 	}
-	if n := len(flow.GetRulesOfResource(res)); n != 1 {
+	if n := len(flow.GetRulesOfResource(res)); n == 0 && math.IsNaN(float64(c.T)) {
+		return wuObs{NaNRejected: true}
+	} else if n != 1 {
 		panic(fmt.Sprintf("case %d: warm-up rule not in force", c.ID))
 	}
 	st, ok := flow.WarmUpStateForVerif(res, 0)
@@ -414,6 +418,10 @@ func runWuCase(a cli.Args, root *rng.R, rep *emit.Report, dist *emit.Distinct, s
 	c := genWu(root.Fork(uint64(id)), id)
 	o := runWu(c, clk)
 	rep.Evaluations++
+	if o.NaNRejected {
+		rep.Count("wu_nan_threshold_rejected", 1)
+		return
+	}
 	nt := monitorWu(c, o, rep)
 	if nt {
 		b, _ := json.Marshal(c)
